@@ -106,6 +106,46 @@ pub fn typed_boundary_ops(rng: &mut Rng) -> Vec<(TypedOp, Vec<u8>)> {
     v
 }
 
+/// the values at which a 16-bit argument could be treated specially (all zeros, all ones, one
+/// byte zero, the sign bit, the neighbours)
+pub const BORDER16: &[u16] = &[0x0000, 0x0001, 0x00FF, 0x0100, 0x7FFF, 0x8000, 0xFF00, 0xFFFE, 0xFFFF];
+
+/// every typed method with every combination of border values for its scalar arguments (a
+/// convenience path that short-cuts "no-op" arguments – a mask write that changes nothing, a
+/// write of what is assumed to be there already – has to show up here)
+pub fn typed_border_products(rng: &mut Rng) -> Vec<TypedOp> {
+    let mut v = vec![];
+    for &a in BORDER16 {
+        for &b in BORDER16 {
+            v.push(TypedOp::Wsr(a, b));
+            for &c in BORDER16 {
+                v.push(TypedOp::Mwr(a, b, c));
+            }
+            v.push(TypedOp::Rhr(a, b));
+            v.push(TypedOp::Rir(a, b));
+            v.push(TypedOp::Rc(a, b));
+            v.push(TypedOp::Rdi(a, b));
+        }
+        for bit in [false, true] {
+            v.push(TypedOp::Wsc(a, bit));
+        }
+        for n in [1usize, 2, 8, 9, 16] {
+            // all-zero and all-one payloads too
+            v.push(TypedOp::Wmc(a, vec![false; n]));
+            v.push(TypedOp::Wmc(a, vec![true; n]));
+            v.push(TypedOp::Wmc(a, rng.bits(n)));
+        }
+        for n in [1usize, 2, 3] {
+            v.push(TypedOp::Wmr(a, vec![0; n]));
+            v.push(TypedOp::Wmr(a, vec![0xFFFF; n]));
+            for &b in BORDER16 {
+                v.push(TypedOp::Rwm(a, 1, b, vec![b; n]));
+            }
+        }
+    }
+    v
+}
+
 pub fn gen_c17(out: &mut Out, rng: &mut Rng, thorough: bool) {
     // every typed method of the blocking client at its boundary sizes, two per connection
     for kind in ["tcp", "rtu"] {
@@ -167,6 +207,31 @@ pub fn gen_c17(out: &mut Out, rng: &mut Rng, thorough: bool) {
                 line.push_str(&format!(" | slave {} | call RHR:0001:0001 r=d{}", hex8(*u), hex_raw(&frame(kind, i as u16 + 1, *u, &pdu))));
             }
             monitor_line(out, &line);
+        }
+    }
+    // the FIRST selection after connecting is a special one: the default of the framing, the
+    // slave the context was connected with, a class border (a selection that a cache holds to be
+    // "already in effect" must really be in effect)
+    for kind in ["tcp", "rtu"] {
+        let default_unit = if kind == "tcp" { 255u8 } else { 0 };
+        let pdu = [0x03u8, 0x02, 0x12, 0x34];
+        let r = rng.u8();
+        for (i, c) in [None, Some(0u8), Some(1), Some(0xF7), Some(0xFF), Some(r)].iter().enumerate() {
+            let (tok, _u0) = match c {
+                None => ("-".to_string(), default_unit),
+                Some(c) => (hex8(*c), *c),
+            };
+            for (j, s) in [0u8, 1, 255, 0xF8, c.unwrap_or(default_unit)].iter().enumerate() {
+                let to = if (i + j) % 2 == 0 { "" } else { " to=1500" };
+                monitor_line(
+                    out,
+                    &format!(
+                        "sync {kind} {tok}{to} | slave {} | call RHR:0001:0001 r=d{}",
+                        hex8(*s),
+                        hex_raw(&frame(kind, 0, *s, &pdu))
+                    ),
+                );
+            }
         }
     }
     // the asynchronous client over a real socket: `client::tcp::connect` / `connect_slave`
